@@ -54,6 +54,18 @@ def check_C04(tier):
     res.evaluations += run_vh(["mcp", "--in", beh, "--conc", str(conc), "--n", str(nrand), "--seed", str(seed())], trace)
     for k, part in enumerate(split_file(trace, 12000)):
         validate_dec_trace(res, part, "C04_%d" % k, module="Trace_Mcp", descriptor=mcp_descriptor)
+    # the same behaviours at the level of the event builder: the chunks of every arrival order x fault as
+    # the PCnn banks of one main event (plus a TRG bank at a random place), judged by Trace_MainEvent's
+    # order-free requirement (which recomputes the reassembly per (board, chip) group from the bank bytes)
+    import p_phys
+    p_phys.full_config()
+    trace_e = os.path.join(BUILD, "traces", "C04_events.ndjson")
+    stride = 9 if tier == "quick" else 1
+    res.evaluations += run_vh(["evt", "--mcp", beh, "--mcp-stride", str(stride), "--n", "0", "--stride", "0",
+                               "--seed", str(seed())], trace_e, timeout=7200)
+    for k, part in enumerate(split_file(trace_e, 700)):
+        validate_dec_trace(res, part, "C04_ev_%d" % k, module="Trace_MainEvent", descriptor=p_phys.evt_descriptor)
+    res.extra["event_level_cases"] = count_lines(trace_e)
     kinds = set()
     with open(trace) as f:
         for line in f:
